@@ -171,6 +171,10 @@ def judge(ctx, c, r, stats, faults):
                        "observed": r["kind"], "source": c["src"]})
         return "ACCEPTED"
     on_site = [m for (ln, m) in r["errs"] if c["l0"] <= ln <= c["l1"]]
+    if r["errs"] and r["errs"][0][0] == 0 and rule in classify([m for (_, m) in r["errs"][:3]]):
+        # the diagnostic that names the offence carries line 0 (what lands on the site lines are
+        # follow-up diagnostics about the resulting error type)
+        on_site = []
     if not on_site:
         lines = sorted({ln for (ln, _) in r["errs"]})
         key = ("wrong-line:line0:%s" % RULES[rule]) if lines[:1] == [0] else ("wrong-line:%s" % op.split(":")[0])
